@@ -21,6 +21,7 @@ EXPLANATION = (
   " (FIN-dropframe) from_frames / to_frames agree with SMPTE ST 12-1 labels around every minute boundary of the first 22 minutes and the hour (30000/1001, 60000/1001) and are inverse there;"
   ' (DEP-round) ClockTime.from_seconds derives hours, minutes, seconds and milliseconds from one rounded value; (EXA-offset) SmpteTimeCode.to_temporal_offset returns Fraction(frames, rate) exactly;'
   ' (PURE-query) the query methods of the time code classes (to_*, get_*, is_*, printing and comparison) assign no attribute of the object, so frame counts and offsets never come from a memo that a later add_frames leaves stale;'
+  ' (FIN-parse) SmpteTimeCode.parse hands the constructor the rate it was given for `:` labels and the drop-frame rate (rate x 1000/1001 unless the denominator is already 1001) for `;` labels, for every base rate of the grid;'
 )
 RULE_TEXT = "EXA: one instance per truncation / time sink call site; FMT: one instance per printer branch x separator choice x sample vector"
 UNDECIDED = ["frames -> label -> frames identity", "label validity and drop-frame label skipping", "monotonicity of successive frame counts",
@@ -296,6 +297,52 @@ def check_drop_count(ctx):
                 f"labels drift against frame counts, so from_frames and to_frames are not inverse at this rate (e.g. frame 15826 -> 00:10:59;20 -> 15827)")
 
 
+def check_parse_rate(ctx):
+  """FIN-parse: the frame rate of a parsed SMPTE label.  An `HH:MM:SS:FF` label counts at the rate
+  it is given, whatever that rate; an `HH:MM:SS;FF` (drop-frame) label counts at the given rate if
+  that already has denominator 1001, else at rate x 1000/1001.  Both return paths of
+  SmpteTimeCode.parse are followed symbolically and the rate argument of the constructor is
+  evaluated for a grid of base rates."""
+  from fractions import Fraction as F
+  from ..consteval import ConstEval, NotConst
+  ix = ctx.ix
+  f = ix.func("ttconv.time_code:SmpteTimeCode.parse")
+  ctx.unit(f.module)
+  rate_p = f.params[-1]
+  ce = ConstEval(ix, symbolic_ok=False)
+  wrong, n = [], 0
+  for label, outcomes, want in (("non-drop `:` label", [True], lambda r: r), ("drop-frame `;` label", [False, True], lambda r: r if r.denominator == 1001 else r * F(1000, 1001))):
+    for r in (F(24), F(25), F(30), F(60), F(30000, 1001), F(60000, 1001), F(24000, 1001)):
+      seq = list(outcomes)
+
+      def decide(test, r=r, seq=seq):
+        if match.is_none_test(test, lambda x: ".match(" in unparse(x)) is not None:
+          if not seq:
+            raise match.PathUndecided("more pattern tests than expected")
+          matched = seq.pop(0)
+          return matched != match.is_none_test(test, lambda x: ".match(" in unparse(x))
+        try:
+          return bool(ce.ev(f.module, test, f.cls, {rate_p: r}))
+        except NotConst as e:
+          raise match.PathUndecided(str(e))
+      try:
+        kind, rexpr = match.path_result(f.node, decide)
+      except match.PathUndecided as e:
+        raise AnalysisError(f"{f.qualname}: the path of a {label} could not be followed ({e})")
+      n += 1
+      if kind != "return" or not isinstance(rexpr, ast.Call) or len(rexpr.args) < 5:
+        wrong.append(f"{label} at {r}: no SmpteTimeCode(...) is returned")
+        continue
+      try:
+        got = ce.ev(f.module, rexpr.args[4], f.cls, {rate_p: r})
+      except NotConst as e:
+        raise AnalysisError(f"{f.qualname}: the rate argument `{short(rexpr.args[4], 60)}` leaves the evaluable subset ({e})")
+      if got != want(r):
+        wrong.append(f"{label} at base rate {r}: counted at {got}, must be {want(r)}")
+  ctx.check(not wrong, "FIN-parse", f"{f.qualname}|a parsed label counts at the rate it was given", ctx.where(f.module, f.node), f"{n} (syntax, base rate) combinations",
+            "; ".join(wrong[:3]) + ": offsets computed from such a label are off by the ratio of the two rates")
+
+
 def run(ctx):
   ix = ctx.ix
   fs = common.funcs(ctx, ["ttconv.time_code"]) + [ix.func("ttconv.imsc.attributes:to_time_format")]
@@ -310,4 +357,5 @@ def run(ctx):
   check_drop_frame_labels(ctx)
   nq = shape.check_pure_queries(ctx, [c for c in ix.classes.values() if c.module.name == "ttconv.time_code"])
   ctx.floor("PURE-query", "query methods of the time code classes", nq, 10)
+  check_parse_rate(ctx)
   common.check_history_independence(ctx, ["ttconv.time_code", "ttconv.imsc.attributes", "ttconv.imsc.utils", "ttconv.srt.paragraph", "ttconv.vtt.cue"])
